@@ -15,13 +15,13 @@ InitWith(sc) ==
   /\ now = 0 /\ up = TRUE /\ ttls = TtlsOf(sc) /\ gen = [k \in Keys |-> 0]
   /\ cache = [k \in Keys |-> None] /\ wlock = [k \in Keys |-> 0]
   /\ pc = [g \in Gs |-> "idle"] /\ key = [g \in Gs |-> "n1"] /\ got = [g \in Gs |-> None]
-  /\ fetched = [g \in Gs |-> None] /\ upq = [g \in Gs |-> FALSE] /\ last = [g \in Gs |-> None]
+  /\ fetched = [g \in Gs |-> None] /\ upq = [g \in Gs |-> FALSE] /\ missed = [g \in Gs |-> FALSE] /\ last = [g \in Gs |-> None]
 TraceInit == l = 2 /\ InitWith(Trace[1].scen)
 
 Silent == (\E g \in Gs : FastRead(g) \/ Lock(g) \/ Recheck(g) \/ Store(g)) /\ UNCHANGED l
 ObsStart == Has /\ Ev.e = "start" /\ Call(Ev.g, Ev.k) /\ l' = l + 1
 ObsUpq == /\ Has /\ Ev.e = "upq" /\ up = Ev.up /\ gen[Ev.k] = Ev.gen
-          /\ \E g \in Gs : key[g] = Ev.k /\ Fetch(g)
+          /\ \E g \in Gs : key[g] = Ev.k /\ (Fetch(g) \/ PrivateFetch(g))
           /\ l' = l + 1
 ObsEnd == /\ Has /\ Ev.e = "end" /\ Ev.kind # "timeout"
           /\ Return(Ev.g) /\ got[Ev.g].kind = Ev.kind
@@ -36,7 +36,7 @@ ObsReset ==
   /\ now' = 0 /\ up' = TRUE /\ ttls' = TtlsOf(Ev.scen) /\ gen' = [k \in Keys |-> 0]
   /\ cache' = [k \in Keys |-> None] /\ wlock' = [k \in Keys |-> 0]
   /\ pc' = [g \in Gs |-> "idle"] /\ key' = [g \in Gs |-> "n1"] /\ got' = [g \in Gs |-> None]
-  /\ fetched' = [g \in Gs |-> None] /\ upq' = [g \in Gs |-> FALSE] /\ last' = [g \in Gs |-> None]
+  /\ fetched' = [g \in Gs |-> None] /\ upq' = [g \in Gs |-> FALSE] /\ missed' = [g \in Gs |-> FALSE] /\ last' = [g \in Gs |-> None]
   /\ l' = l + 1
 TraceNext == Silent \/ ObsStart \/ ObsUpq \/ ObsEnd \/ ObsAdvance \/ ObsChange \/ ObsToggle \/ ObsFin \/ ObsReset
 \* unlogged (silent) steps make the search branch: stop as soon as one explanation of the whole trace is found
